@@ -8,6 +8,7 @@
 From Coq Require Import List ZArith.
 From MirV Require Import C03.Thunk C03.ThunkBytesProofs C03.ThunkProofs C03.ArgPass C03.ArgPassProofs.
 From MirV Require Import C03.CodePatch C03.CodePatchProofs.
+From MirV Require Import C03.ResPass C03.ResPassProofs.
 Local Open Scope Z_scope.
 
 (* _MIR_redirect_thunk followed by a jump to the thunk lands on `to`, for either encoding
@@ -274,3 +275,18 @@ Example ex_sse_block_boundary :
      = [[RInt 0]; [RInt 1]; [RInt 2]; [RInt 3]; [RInt 4]; [RInt 5; RFp 0]; [Stk 0; Stk 8]; [Stk 16; Stk 24];
         [Stk 32]; [Stk 40; Stk 48; Stk 56]].
 Proof. vm_compute. repeat split. Qed.
+
+(* Round 3 (wave 7).  Functions with several results (coq/C03/ResPass.v): the register each result is put into by the
+   interpreter's C-call shim (_MIR_get_interp_shim), fetched from by the interpreter's call stub (_MIR_get_ff_call) and
+   used by generated code (machinize_call / ret) is the same for EVERY list of result types ... *)
+Theorem result_walkers_agree : forall ts, res_shim_walk ts = res_ff_walk ts /\ res_ff_walk ts = res_gen_walk ts.
+Proof. intros ts. split; [exact (shim_ff_agree ts)|exact (ff_gen_agree ts)]. Qed.
+Print Assumptions result_walkers_agree.
+
+(* ... and for every list with at most two results per register class it is the k-th return register of the result's
+   class (rax, rdx / xmm0, xmm1 / st0, st1), k = the number of EARLIER results of that class -- what a C caller reading
+   the structure expects; never the result's position in the list. *)
+Theorem result_walkers_meet_sysv : forall ts, res_plain ts = true ->
+  res_shim_walk ts = Some (res_spec ts) /\ res_ff_walk ts = Some (res_spec ts) /\ res_gen_walk ts = Some (res_spec ts).
+Proof. exact walkers_meet_spec. Qed.
+Print Assumptions result_walkers_meet_sysv.
